@@ -32,8 +32,8 @@ struct Value {
         T_DATA,
         T_OPCODE,
     } type;
-    int64_t int64;
-    opcodetype opcode;
+    int64_t int64{0};
+    opcodetype opcode{OP_0};
     std::vector<uint8_t> data;
     std::string str;
     static std::vector<Value> parse_args(const std::vector<const char*> args) {
